@@ -399,7 +399,87 @@ fn sweep_two(file: &[u8], second: &[Shape], n: usize, fcap: usize, rep: &mut Rep
     }
 }
 
-/// rqmc c02 <max file len> <max context> <max fuzz> <two-hunk max file len>
+/// three-hunk sweep: two leading hunks derived from file positions, both stated off by -2..2 (so that two different
+/// non-zero offsets are in play), then a general third hunk: its expected line is stated + the offset of the hunk
+/// right before it - not the sum of all offsets, not the first one.
+fn sweep_three(file: &[u8], third: &[Shape], rep: &mut Report) {
+    let n = file.len();
+    let fbytes = sym_file(file);
+    // the two leading hunks sit near the top so that the rest of the file is free for the third one
+    for i1 in 0..2usize.min(n) {
+        for i2 in (i1 + 2)..(i1 + 4).min(n) {
+            for d1 in [-2isize, -1, 1, 2] {
+                for d2 in [-2isize, -1, 1, 2] {
+                    let h1 = Shape { pc: vec![], rc: vec![file[i1]], kc: vec![2], sc: vec![] };
+                    let h2 = Shape { pc: vec![], rc: vec![file[i2]], kc: vec![2], sc: vec![] };
+                    let (st1, st2) = (i1 as isize + 1 + d1, i2 as isize + 1 + d2);
+                    if st1 < 1 || st2 < 1 {
+                        continue;
+                    }
+                    for sh in third {
+                        for stated in 1..=(n + 2) {
+                            let mut txt = b"--- f\n+++ f\n".to_vec();
+                            h1.render(st1 as usize, st1 as usize, &mut txt);
+                            h2.render(st2 as usize, st2 as usize, &mut txt);
+                            sh.render(stated, stated, &mut txt);
+                            rep.evaluations += 1;
+                            let o = parse_apply(&txt, Some(&fbytes), None, false, 0, false);
+                            let a = match &o {
+                                Ok(a) if a.hunks.len() == 3 => a,
+                                Err(ApplyErr::Panic(m)) => {
+                                    rep.violation("panic-three-hunks", &format!("panic:{}", &m[..m.len().min(40)]), || witness(&txt, &fbytes, false, 0, "panic", &o));
+                                    continue;
+                                }
+                                _ => continue,
+                            };
+                            // the hunk right before the third one that applied, and where its block ends
+                            let mut prev: Option<(isize, isize)> = None;
+                            for (hr, len) in [(&a.hunks[1], 1isize), (&a.hunks[0], 1isize)] {
+                                if let HR::Applied { line, offset, .. } = hr {
+                                    prev = Some((*offset, *line + len));
+                                    break;
+                                }
+                            }
+                            let (off, block_end) = match prev {
+                                Some(x) => x,
+                                None => continue,
+                            };
+                            let both = matches!((&a.hunks[0], &a.hunks[1]), (HR::Applied { offset: o1, .. }, HR::Applied { offset: o2, .. }) if *o1 != 0 && *o2 != 0 && o1 != o2);
+                            let st0 = stated as isize - 1;
+                            let old3 = sh.old(false);
+                            let l0 = level(file, &old3, sh.p(), sh.s(), 0, stated <= 1);
+                            let full = !l0.cands.iter().any(|&q| q <= block_end);
+                            if !full {
+                                continue;
+                            }
+                            let v = judge(file, &old3, sh.p(), sh.s(), stated <= 1, 0, &[st0 + off], &a.hunks[2], true, false);
+                            if both {
+                                rep.count("third-hunk-after-two-different-offsets");
+                                if let HR::Applied { .. } = &a.hunks[2] {
+                                    // would the verdict differ if the offsets were summed up or the first one were used?
+                                    let (o1, o2) = match (&a.hunks[0], &a.hunks[1]) { (HR::Applied { offset: o1, .. }, HR::Applied { offset: o2, .. }) => (*o1, *o2), _ => (0, 0) };
+                                    if judge(file, &old3, sh.p(), sh.s(), stated <= 1, 0, &[st0 + o1 + o2], &a.hunks[2], true, false).violation.is_some()
+                                        || judge(file, &old3, sh.p(), sh.s(), stated <= 1, 0, &[st0 + o1], &a.hunks[2], true, false).violation.is_some()
+                                    {
+                                        rep.count("third-hunk-placement-tells-offset-rules-apart");
+                                    }
+                                }
+                            }
+                            if v.nontrivial {
+                                rep.nontrivial += 1;
+                            }
+                            if let Some((clause, detail)) = v.violation {
+                                rep.violation(&format!("{}-third-hunk", clause), "wrong-placement", || witness(&txt, &fbytes, false, 0, &format!("third hunk {}: {} (expected line {})", clause, detail, st0 + off), &o));
+                            }
+                        }
+                    }
+                }
+            }
+        }
+    }
+}
+
+/// rqmc c02 <max file len> <max context> <max fuzz> <two-hunk max file len> [three-hunk file len]
 pub fn run(args: &[String]) {
     let t0 = std::time::Instant::now();
     let n: usize = args.get(0).and_then(|s| s.parse().ok()).unwrap_or(5);
@@ -411,11 +491,16 @@ pub fn run(args: &[String]) {
     let second = shapes(1, 1);
     let files2: Vec<Vec<u8>> = seqs_upto(n2, 2).into_iter().filter(|f| !f.is_empty()).collect();
     let n1 = sh.len();
-    let rep = par_shards(n1 + files2.len(), n_threads(), |i, rep| {
+    let n3: usize = args.get(4).and_then(|s| s.parse().ok()).unwrap_or(9);
+    let files3: Vec<Vec<u8>> = seqs_exact(n3, 2);
+    let nf2 = files2.len();
+    let rep = par_shards(n1 + nf2 + files3.len(), n_threads(), |i, rep| {
         if i < n1 {
             sweep_shape(&sh[i], &files, n, fcap, rep);
-        } else {
+        } else if i < n1 + nf2 {
             sweep_two(&files2[i - n1], &second, n2, fcap, rep);
+        } else {
+            sweep_three(&files3[i - n1 - nf2], &second, rep);
         }
     });
     let out = rep.to_json(vec![
@@ -424,6 +509,7 @@ pub fn run(args: &[String]) {
         ("max_fuzz_limit", J::u(fcap as u64)),
         ("hunk_shapes", J::u(n1 as u64)),
         ("two_hunk_files", J::u(files2.len() as u64)),
+        ("three_hunk_files", J::u(files3.len() as u64)),
         ("wall_s", J::F(t0.elapsed().as_secs_f64())),
     ]);
     println!("{}", out.to_string());
